@@ -148,6 +148,18 @@ def run(ctx, F, cg):
                 if not keeps_old:
                     okd = False
                     ctx.violation("R16d", short + "|properties-replaced", where(r, line), "the stored entity's property map is replaced wholesale: properties not named by this update are lost on recovery")
+                else:
+                    # the new map is computed from the old one by a call: a local merge helper must give the update precedence
+                    for o in srcs:
+                        if o[0] != "call" or o[1].path not in F.fns:
+                            continue
+                        hc = o[1]
+                        old_ix = [k for k, a in enumerate(hc.args) if a[0] != "k" and any(f.endswith(".properties") for f in od.chain_fields(b, a))]
+                        verdict = _merge_precedence(F, hc.path, set(old_ix))
+                        if verdict is not True:
+                            okd = False
+                            ctx.violation("R16d", short + "|merge-precedence", where(r, line),
+                                          "the stored map is rebuilt by %s, %s: on a key the entity already has, the acknowledged new value is lost on recovery" % (hc.path.rsplit("::", 1)[-1], verdict))
         if okd:
             ctx.ok("R16d", short, "writes back the entity it read; properties merged (no wholesale assignment)")
     ctx.floor("R16d", "update functions with a storage write", nupd, 2)
@@ -168,3 +180,43 @@ def run(ctx, F, cg):
     return ("Decided: log-before-data order in every persist function; every acknowledged entry kind reaches storage (or finds nothing to update) on "
             "every path to Ok, which is necessary because recover() is scans of storage and does not replay the log; recover scans its own tenant. "
             "Not decided: atomicity of the in-flight operation inside RocksDB, equality of recovered values.")
+
+
+def _merge_precedence(F, helper, old_params):
+    """True when the helper lets the update win on a key collision; otherwise a reason.
+    Accepted forms: extend / insert of update entries into a clone of the stored map; collect of
+    stored.iter().chain(update.iter()) (a later entry replaces an earlier one)."""
+    r = F.fns.get(helper)
+    m = F.mir(helper)
+    if not r or not m:
+        return "whose body is not available"
+    hb = Body(m, r)
+    oldp = {i + 1 for i in old_params}
+
+    def from_params(op):
+        if op[0] == "k":
+            return set()
+        og = hb.origins(op[1][0], through_calls=lambda c: list(range(len(c.args))))
+        return {x[1] for x in og if x[0] == "arg"}
+    chains = [c for c in hb.calls() if c.path.rsplit("::", 1)[-1] == "chain"]
+    for c in chains:
+        if len(c.args) >= 2:
+            first, second = from_params(c.args[0]), from_params(c.args[1])
+            if first and second:
+                if first <= oldp and not (second & oldp):
+                    return True
+                if second <= oldp and not (first & oldp):
+                    return "which chains the update BEFORE the stored entries, so the stored value replaces the new one when collected"
+    for c in hb.calls():
+        nm = c.path.rsplit("::", 1)[-1]
+        if nm in ("extend", "insert") and c.args and c.args[0][0] != "k":
+            recv = from_params(c.args[0])
+            rest = set()
+            for a in c.args[1:]:
+                rest |= from_params(a)
+            if recv and rest:
+                if recv <= oldp and not (rest & oldp):
+                    return True
+                if (rest & oldp) and not (recv & oldp):
+                    return "which writes the stored entries over the update (%s of the stored map into the new one)" % nm
+    return "a merge form the rule does not recognise (accepted: insert/extend of the update into the stored map, or stored.chain(update).collect())"
